@@ -329,8 +329,9 @@ def find_witness(pid, obligation):
     return None
 
 
-STANDIN_MODES = {"C02": ["ident", "stream"], "C05": ["dec"], "C06": ["wf"], "C07": ["consist"], "C09": ["thr"], "C11": ["ncase"], "C15": ["iter"], "C18": ["orule"]}
+STANDIN_MODES = {"C02": ["ident", "stream"], "C03": ["total"], "C05": ["dec"], "C06": ["wf"], "C07": ["consist"], "C09": ["thr"], "C11": ["ncase"], "C15": ["iter"], "C18": ["orule"]}
 STANDIN_BOUND = {
+    "total": "about 70 texts (empty, whitespace-only, hyphen-only, combining characters, lone link / separator words, sequences of ordinals and cardinals with commas, repeated scale words, a 160-word number, the 29 stream phrases) x 7 languages x thresholds {0, 10, 100, +inf, -inf, NaN, -1} through text2digits, replace_numbers_in_text, find_numbers and find_numbers_iter: no panic, the lazy iterator ends",
     "ident": "22 texts without number words x 7 languages x thresholds {0,10} must come back identical; 7 number phrases x 6 punctuation frames",
     "stream": "29 token streams x thresholds {0,10} through replace_numbers_in_stream with tokens that record their source words",
     "dec": "16 decimal phrases (7 languages): rewritten text and Occurence.value",
